@@ -1027,6 +1027,12 @@ public:
   template<typename T>
   inline tainted<T*, T_Sbx> INTERNAL_get_sandbox_function_ptr(void* func_ptr)
   {
+    // The address handed out is not checked against the sandbox's memory, as
+    // functions need not live there. Given an object, this would wrap the
+    // address of application data in a tainted pointer
+    static_assert(std::is_function_v<T>,
+                  "sandbox_function_address / get_sandbox_function_address "
+                  "expects the name of a sandbox function");
     return tainted<T*, T_Sbx>::internal_factory(reinterpret_cast<T*>(func_ptr));
   }
 
